@@ -2383,3 +2383,29 @@ func valueSources(v ssa.Value) []ssa.Value {
 	rec(v, 0)
 	return out
 }
+
+
+// isPredicateEvalCall: an invocation of a predicate object's evaluation method: Evaluate(env) bool, or a variant
+// that also reports why a row was rejected (EvaluateWithError(env) (bool, error)) - any interface method named
+// Evaluate… whose first result is the boolean verdict.
+func isPredicateEvalCall(c *ssa.CallCommon) bool {
+	if c == nil || !c.IsInvoke() || !strings.HasPrefix(c.Method.Name(), "Evaluate") {
+		return false
+	}
+	res := c.Signature().Results()
+	return res.Len() >= 1 && isBool(res.At(0).Type())
+}
+
+// predicateVerdict: v is the boolean verdict of a predicate evaluation: the call itself, or result 0 of the variant
+// that also returns an error.
+func predicateVerdict(v ssa.Value) bool {
+	switch x := v.(type) {
+	case *ssa.Call:
+		return isPredicateEvalCall(&x.Call) && isBool(x.Type())
+	case *ssa.Extract:
+		if c, ok := x.Tuple.(*ssa.Call); ok && x.Index == 0 {
+			return isPredicateEvalCall(&c.Call)
+		}
+	}
+	return false
+}
